@@ -36,6 +36,13 @@ Open Scope nat_scope.
 Definition line := string.
 Definition exit_line : line := "exit"%string.
 
+(* the lines stream mode accepts: everything before the first line that is exactly "exit" *)
+Fixpoint before_exit (l : list line) : list line :=
+  match l with
+  | [] => []
+  | x :: r => if String.eqb x exit_line then [] else x :: before_exit r
+  end.
+
 (* ---- workers ---- *)
 Inductive wpc :=
 | WTop                         (* top of the loop: about to load `stop` *)
